@@ -32,17 +32,18 @@ type Mutex struct {
 //go:norace
 func hold(g *simrt.G, m any) {
 	if g != nil {
-		g.Held[m]++
+		g.Held = append(g.Held, m)
 	}
 }
 
 //go:norace
 func unhold(g *simrt.G, m any) {
 	if g != nil {
-		if g.Held[m] <= 1 {
-			delete(g.Held, m)
-		} else {
-			g.Held[m]--
+		for i := len(g.Held) - 1; i >= 0; i-- {
+			if g.Held[i] == m {
+				g.Held = append(g.Held[:i], g.Held[i+1:]...)
+				return
+			}
 		}
 	}
 }
